@@ -267,7 +267,10 @@ class ServerSet(object):
     # stat == None -> the node was deleted (or doesnt exist)
     if stat is None:
       self._watching = False
-      self._send_all_removed()
+      # Every member is gone.  Report that through the notification worker (as
+      # an empty child list) so it is ordered after any update the worker is
+      # still processing.
+      self._on_set_changed(())
     elif not self._watching:
       self._watching = True
       self._begin_watch()
@@ -275,11 +278,6 @@ class ServerSet(object):
   def _begin_watch(self):
     self._log.info('Beginning to watch path %s' % self._zk_path)
     ChildrenWatch(self._zk, self._zk_path, self._on_set_changed)
-
-  def _send_all_removed(self):
-    for k in self._members.keys():
-      member = self._members.pop(k)
-      self._on_leave(member)
 
   def _notification_worker(self):
     """'Atomically' raise notifications for join / leave.
@@ -291,7 +289,11 @@ class ServerSet(object):
       work = self._notification_queue.get()
       self._cb_blocker.ensure_safe()
       try:
-        new_nodes, removed_nodes = work
+        # Diff against the members that were actually announced, not against
+        # the previous child list: a node that vanished before it could be read,
+        # or came back under the same name, is picked up by the next update.
+        new_nodes = [n for n in work if n not in self._members]
+        removed_nodes = [n for n in self._members if n not in work]
         new_members = self._zk_nodes_to_members(new_nodes)
         self._members.update(((m.name, m) for m in new_members))
 
@@ -324,9 +326,6 @@ class ServerSet(object):
       children - The new set of child nodes.
     """
     children = set([c for c in children if self._member_filter(c)])
-    current_nodes = set(self._nodes)
     self._nodes = children
-    new_nodes = children - current_nodes
-    removed_nodes = current_nodes - children
     self._log.debug("Queueing notifications")
-    self._notification_queue.put((new_nodes, removed_nodes))
+    self._notification_queue.put(children)
